@@ -139,7 +139,14 @@ int main(int argc, char ** argv) {
         int is_t = op[0] == 't';
         const char * o = op + 1;
         if (op[0] == 'w' || op[0] == 't') {
-            if (!strcmp(o, "open")) {
+            if (!strcmp(o, "openbad")) {
+                // a destination in a directory that does not exist: the open must fail and keep nothing
+                if (twr || wr || raw || rd) continue;
+                snprintf(p, sizeof(p), "%s/no_such_dir/out.jls", workdir);
+                out[0] = live; nout = 1;
+                if (is_t) { struct jls_twr_s * t_ = NULL; rc = jls_twr_open(&t_, p); if (!rc && t_) jls_twr_close(t_); }
+                else { struct jls_wr_s * w_ = NULL; rc = jls_wr_open(&w_, p); if (!rc && w_) jls_wr_close(w_); }
+            } else if (!strcmp(o, "open")) {
                 path_of("out", p, sizeof(p));
                 long l0 = live;
                 if (is_t) { if (twr || wr || raw) continue; rc = jls_twr_open(&twr, p); if (rc) twr = NULL; }
@@ -367,6 +374,13 @@ int main(int argc, char ** argv) {
             } else {
                 continue;
             }
+        } else if (!strcmp(op, "copybad")) {
+            char q[600];
+            if (rd || wr || twr || raw) continue;
+            path_of("out", p, sizeof(p));
+            snprintf(q, sizeof(q), "%s/no_such_dir/copy.jls", workdir);
+            out[0] = live; nout = 1;
+            rc = jls_copy(p, q, NULL, NULL, NULL, NULL);
         } else if (!strcmp(op, "copy")) {
             // a[0]: source kind as ropen
             static const char * kinds[] = {"out", "missing", "garbage", "empty", "hdronly", "trunc"};
